@@ -192,6 +192,9 @@ impl Prop for C13 {
     }
     fn fixed(&self, tier: Tier) -> Vec<Case> {
         let mut v = vec![Case::Tables];
+        // a message that makes the ERR packet exactly one wire packet / one byte more
+        v.push(Case::Sweep { from: 45, to: 46, site: Site::QueryFirst, msg: MsgSpec::Pat { seed: 5, len: MAX_PAYLOAD - 9 } });
+        v.push(Case::Sweep { from: 46, to: 47, site: Site::FinishErrorBin(2), msg: MsgSpec::Pat { seed: 6, len: MAX_PAYLOAD - 8 } });
         let n = ERROR_KINDS.len();
         let chunk = 16;
         match tier {
